@@ -172,11 +172,9 @@ def seed_rules(run, db):
                       'the sweep starts at %s, below the seed index minus one: entries in between are never computed' % start.key(), f.loc(inner))
 
 
-def rule_rules(run, db):
-    """Product/chain rule assemblies against the symbolic derivative of the value routine."""
+def sag_rules(run, db):
     it, dom = norm_interp(db)
     R = dom.R
-    R.fderiv = {'jacobi': (3, 'jacobi_der')}
     S = 'prysm.x.raytracing.surfaces.'
     # sags
     for sag, der, args in ((S + 'sphere_sag', S + 'sphere_sag_der', ['c']), (S + 'conic_sag', S + 'conic_sag_der', ['c', 'kappa'])):
@@ -187,6 +185,13 @@ def rule_rules(run, db):
         d = as_rat(dom, returns(it.run(fd, kwargs=lambda: dict(kw, rho=Sym(rho), phi=Const(None))), fd)[0].value, der)
         want = diff(v, 'rho', R)
         run.check(want == d, 'C09.rule', fd.qual, 'sag derivative', '%s == d/drho %s(rho^2)' % (fd.name, fs.name), '%s = %s but d/drho %s = %s' % (fd.name, d.key(), fs.name, want.key()), fd.loc())
+
+def rule_rules(run, db):
+    """Product/chain rule assemblies against the symbolic derivative of the value routine."""
+    sag_rules(run, db)
+    it, dom = norm_interp(db)
+    R = dom.R
+    R.fderiv = {'jacobi': (3, 'jacobi_der')}
     # Zernike
     Z = 'prysm.polynomials.zernike.'
     for label, mk_m in (('m = 0', lambda d: Const(0)), ('m > 0', lambda d: d.sym('m')), ('m < 0', lambda d: Sym(-d.sym('mm').r))):
@@ -250,6 +255,85 @@ def rule_rules(run, db):
                   '%s: zprime = %s but d/du z = %s' % (name, zp.key(), want.key()), f.loc())
 
 
+def offaxis_rules(run, db):
+    """Off-axis conic: (sag, der) and (1/sigma, sigma_der) pairs in r and t for both decentre branches; Q2d_and_der assembly."""
+    S = 'prysm.x.raytracing.surfaces.'
+    for branch in ('dx', 'dy'):
+        it, dom = norm_interp(db)
+        R = dom.R
+        dom.nonzero = {'s'}
+
+        def kw():
+            d = {'c': dom.sym('c'), 'kappa': dom.sym('kappa'), 'r': dom.sym('r'), 't': dom.sym('t')}
+            d['dx'] = dom.sym('s') if branch == 'dx' else Const(0)
+            d['dy'] = dom.sym('s') if branch == 'dy' else Const(0)
+            return d
+        for val, der, inv in ((S + 'off_axis_conic_sag', S + 'off_axis_conic_der', False), (S + 'off_axis_conic_sigma', S + 'off_axis_conic_sigma_der', True)):
+            fv, fd = db.func(val), db.func(der)
+            rv, rd = returns(it.run(fv, kwargs=kw), fv), returns(it.run(fd, kwargs=kw), fd)
+            if len(rv) != 1 or len(rd) != 1:
+                raise AnalysisError('%s / %s (%s branch): expected one path each, got %d / %d' % (fv.name, fd.name, branch, len(rv), len(rd)))
+            v = as_rat(dom, rv[0].value, fv.name)
+            if inv:
+                v = Rat(R.const(1)) / v
+            dv = rd[0].value
+            if not (isinstance(dv, Tup) and len(dv.items) == 2):
+                raise AnalysisError('%s does not return (dr, dt)' % fd.name)
+            for nm, var, got in (('dr', 'r', dv.items[0]), ('dt', 't', dv.items[1])):
+                g = as_rat(dom, got, nm)
+                try:
+                    want = diff(v, var, R)
+                except NormError as e:
+                    raise AnalysisError('%s: %s' % (fd.name, e))
+                run.check(g == want, 'C09.rule', fd.qual, '%s, decentre along %s' % (nm, branch[1]),
+                          '%s %s == d/d%s %s%s [decentre along %s]' % (fd.name, nm, var, '1/' if inv else '', fv.name, branch[1]),
+                          '%s (decentre along %s): %s = %s, but d/d%s of %s%s is %s' % (fd.name, branch[1], nm, g.key(), var, '1/' if inv else '', fv.name, want.key()), fd.loc())
+    # Q2d_and_der: z = base + Z(r/R, t)/sigma with every piece uninterpreted but carrying its declared derivatives
+    it, dom = norm_interp(db)
+    R = dom.R
+    f = db.func(S + 'Q2d_and_der')
+    r_, t_, Rn = Rat(R.atom('r')), Rat(R.atom('t')), Rat(R.atom('normalization_radius'))
+    atoms = {}
+
+    def A(name):
+        atoms[name] = Rat(R.atom(name))
+        return Sym(atoms[name])
+
+    def call_prysm(fi, args, kwargs, node):
+        if fi.name == 'cart_to_polar':
+            return Tup([Sym(r_), Sym(t_)])
+        if fi.name == 'compute_z_zprime_Q2d':
+            got = dom.rat(args[3])
+            if got is None or not (got == r_ / Rn):
+                run.finding('C09.rule', f.qual, 'normalised radius', 'compute_z_zprime_Q2d is not evaluated at r / normalization_radius', f.loc(node))
+            return Tup([A('Z'), A('Zu'), A('Zt')])
+        if fi.name == 'off_axis_conic_sag':
+            return A('B')
+        if fi.name == 'off_axis_conic_der':
+            return Tup([A('Br'), A('Bt')])
+        if fi.name == 'off_axis_conic_sigma':
+            return A('sig')
+        if fi.name == 'off_axis_conic_sigma_der':
+            return Tup([A('Gr'), A('Gt')])      # derivatives of G = 1/sigma
+        return None
+    dom.call_prysm = call_prysm
+    kw = {p: dom.sym(p) for p in f.params}
+    res = returns(it.run(f, kwargs=lambda: dict(kw)), f)
+    if len(res) != 1 or not (isinstance(res[0].value, Tup) and len(res[0].value.items) == 3):
+        raise AnalysisError('Q2d_and_der: expected one path returning (z, dr, dt)')
+    z, zr, zt = [as_rat(dom, x, 'Q2d_and_der') for x in res[0].value.items]
+    # declared derivatives: Z = Z(u, t) with u = r/R; B(r, t); 1/sig = G(r, t)
+    (zk,), (bk,), (sk,) = [list(atoms[n].num.atoms()) for n in ('Z', 'B', 'sig')]
+    R.deriv[zk] = {'r': atoms['Zu'] / Rn, 't': atoms['Zt']}
+    R.deriv[bk] = {'r': atoms['Br'], 't': atoms['Bt']}
+    sig = atoms['sig']
+    R.deriv[sk] = {'r': -atoms['Gr'] * sig * sig, 't': -atoms['Gt'] * sig * sig}     # d sig = -sig^2 dG
+    for nm, var, got in (('dr', 'r', zr), ('dt', 't', zt)):
+        want = diff(z, var, R)
+        run.check(got == want, 'C09.rule', f.qual, 'assembly ' + nm, 'Q2d_and_der %s == d/d%s [base + Z(r/R, t)/sigma] by the product and chain rules' % (nm, var),
+                  'Q2d_and_der: %s = %s, but d/d%s of the returned sag %s is %s' % (nm, got.key(), var, z.key(), want.key()), f.loc())
+
+
 def check(run, db, tier):
     run.trust('NORM with symbolic differentiation D (sum, product, quotient, chain through sqrt/exp/log/arctan/sin/cos/pow and declared atoms such as D_x jacobi = jacobi_der)',
               'reference derivative identities: DLMF 18.9.15 (Jacobi), Hermite n He_(n-1) / 2n H_(n-1), Laguerre -L_(n-1)^(a+1)',
@@ -265,6 +349,7 @@ def check(run, db, tier):
     run.group(c07.compose_rules, Proxy(run, {'C07.compose': 'C09.id'}), db)
     run.group(seed_rules, run, db)
     run.group(rule_rules, run, db)
+    run.group(offaxis_rules, run, db)
     run.require_instances('C09.id', 40)
     run.require_instances('C09.seed', 6)
-    run.require_instances('C09.rule', 10)
+    run.require_instances('C09.rule', 20)
